@@ -1343,6 +1343,88 @@ async fn run_cache_scenario(mode: CacheMode, via: Via, class: EpClass, uniq: u64
     Ok(CacheObs { steps, proj_g0, proj_g1 })
 }
 
+const TTL_LONG: Duration = Duration::from_millis(1500);
+
+/// Sliding-expiry history: fetch at t0, a hit well inside the TTL at t1, then a query at t2 with
+/// t0 + TTL < t2 < t1 + TTL. The answer's time-to-live ends at t0 + TTL whatever happened at t1, so
+/// the query at t2 must go to the network. Steps are judged only from measured instants.
+async fn run_sliding_scenario(mode: CacheMode, via: Via, class: EpClass, uniq: u64) -> Result<CacheObs, String> {
+    let (https, http, tcp) = match via {
+        Via::Https => (HttpBeh::Valid(Shape::Plain), HttpBeh::Valid(Shape::Plain), TcpBeh::ValidV2(Shape::Plain)),
+        Via::HttpAfter503 => (HttpBeh::Status(503, None), HttpBeh::Valid(Shape::InteriorBlank), TcpBeh::ValidV2(Shape::Plain)),
+        Via::TcpV1AfterRefused => (HttpBeh::Refused, HttpBeh::Refused, TcpBeh::ValidV1(true, Shape::Plain)),
+        Via::TcpV2 => (HttpBeh::Refused, HttpBeh::Refused, TcpBeh::ValidV2(Shape::Plain)),
+    };
+    let sc = Scenario { class, https, http, tcp, splits: vec![], uniq, disk: mode != CacheMode::Memory, rows: 3 };
+    let dir = if sc.disk { Some(tempfile::tempdir().map_err(|e| format!("harness: tempdir: {e}"))?) } else { None };
+    let rig = build_rig(&sc, TTL_LONG, dir.as_ref().map(|d| d.path().to_path_buf())).await?;
+    let answering = if class.tcp_only() {
+        Slot::Tcp
+    } else {
+        match via {
+            Via::Https => Slot::Https,
+            Via::HttpAfter503 => Slot::Http,
+            _ => Slot::Tcp,
+        }
+    };
+    let doc = |generation: u32| -> (Vec<u8>, Option<String>) {
+        match answering {
+            Slot::Https => {
+                let b = http_body(&sc.https, class, Slot::Https, uniq, generation, sc.rows);
+                let p = ref_http(&b);
+                (b, p)
+            }
+            Slot::Http => {
+                let b = http_body(&sc.http, class, Slot::Http, uniq, generation, sc.rows);
+                let p = ref_http(&b);
+                (b, p)
+            }
+            Slot::Tcp => {
+                let b = tcp_payload(&sc.tcp, class, uniq, generation, sc.rows);
+                let p = ref_tcp(&b);
+                (b, p)
+            }
+        }
+    };
+    let (_, p0) = doc(0);
+    let (b1, p1) = doc(1);
+    let (proj_g0, proj_g1) = (p0.ok_or("harness: generation 0 does not parse")?, p1.ok_or("harness: generation 1 does not parse")?);
+    let ep = class.endpoint();
+    let mut steps: Vec<CacheStep> = Vec::new();
+    let c1 = new_client(&rig.cfg)?;
+    let t0s = Instant::now();
+    let before = rig.log.len();
+    let r0 = do_query(&c1, ep).await;
+    let t0e = Instant::now();
+    steps.push(CacheStep { name: "cold-query", client: "same-client", phase: "cold", result: r0, new_requests: rig.log.len() - before, want_generation: 0 });
+    match answering {
+        Slot::Https => rig.https_script.lock().map_err(|_| "lock")?.body = b1,
+        Slot::Http => rig.http_script.lock().map_err(|_| "lock")?.body = b1,
+        Slot::Tcp => rig.tcp_script.lock().map_err(|_| "lock")?.payload = b1,
+    }
+    // t1: a hit at about 0.55 TTL after the store
+    tokio::time::sleep(TTL_LONG * 55 / 100).await;
+    let before = rig.log.len();
+    let r1 = do_query(&c1, ep).await;
+    let t1e = Instant::now();
+    // surely before the TTL ended: the answer was stored no earlier than t0s
+    let hit_phase = if t1e.duration_since(t0s) < TTL_LONG * 80 / 100 { "within" } else { "unjudged" };
+    let hit_requests = rig.log.len() - before;
+    steps.push(CacheStep { name: "repeat-before-expiry", client: "same-client", phase: hit_phase, result: r1, new_requests: hit_requests, want_generation: 0 });
+    // t2: 0.2 TTL after the original TTL ended (the store happened no later than t0e)
+    let target = t0e + TTL_LONG * 120 / 100;
+    tokio::time::sleep(target.saturating_duration_since(Instant::now())).await;
+    let t2s = Instant::now();
+    let before = rig.log.len();
+    let r2 = do_query(&c1, ep).await;
+    // judged only if the hit really was a hit (otherwise a fresh TTL legitimately started at t1) and t2 is surely past t0e + TTL
+    let phase = if hit_phase == "within" && hit_requests == 0 && t2s.duration_since(t0e) > TTL_LONG + Duration::from_millis(100) { "after-hit" } else { "unjudged" };
+    steps.push(CacheStep { name: "query-after-original-ttl-following-a-hit", client: "same-client", phase, result: r2, new_requests: rig.log.len() - before, want_generation: 1 });
+    drop(c1);
+    drop(rig);
+    Ok(CacheObs { steps, proj_g0, proj_g1 })
+}
+
 /// returns true when every step could be judged
 fn judge_cache(ctx: &Ctx, mode: CacheMode, via: Via, class: EpClass, obs: &CacheObs) -> bool {
     let mut all_judged = true;
@@ -1380,6 +1462,15 @@ fn judge_cache(ctx: &Ctx, mode: CacheMode, via: Via, class: EpClass, obs: &Cache
                 let stale = s.result == QR::Ok(obs.proj_g0.clone());
                 if stale && s.new_requests == 0 {
                     ctx.violation(&format!("C13|cache|answer-served-after-ttl-ended|{m}|{}", s.client), "an answer was served from the cache (no network traffic) more than 3 TTLs after it was stored", detail(s));
+                } else if s.result != QR::Ok(want.clone()) {
+                    ctx.violation(&format!("C13|cache|query-after-expiry-did-not-return-the-fresh-answer|{m}|{}", s.client), "after expiry the query did not return the answer now served", detail(s));
+                }
+            }
+            "after-hit" => {
+                ctx.obs(&format!("cache.judged.after-original-ttl-following-a-hit.{m}"), 1);
+                let stale = s.result == QR::Ok(obs.proj_g0.clone());
+                if stale && s.new_requests == 0 {
+                    ctx.violation(&format!("C13|cache|answer-served-after-ttl-ended|{m}|{}|after-a-hit-inside-the-ttl", s.client), "an answer was served from the cache (no network traffic) after its time-to-live (counted from when it was fetched) had ended; a cache hit inside the TTL must not extend it", detail(s));
                 } else if s.result != QR::Ok(want.clone()) {
                     ctx.violation(&format!("C13|cache|query-after-expiry-did-not-return-the-fresh-answer|{m}|{}", s.client), "after expiry the query did not return the answer now served", detail(s));
                 }
@@ -1659,6 +1750,46 @@ fn main() {
                     }
                     Ok((_, _, _, Ok(Err(e)))) => ctx.inconclusive(&format!("cache history: {e}")),
                     Ok((_, _, _, Err(_))) => ctx.inconclusive("cache history: watchdog (120 s)"),
+                    Err(_) => ctx.inconclusive("cache history task failed"),
+                }
+            }
+            pending = again;
+        }
+        // sliding-expiry histories (a hit inside the TTL must not extend it)
+        let mut pending: Vec<(CacheMode, Via, EpClass)> = vec![
+            (CacheMode::Memory, Via::Https, EpClass::Versions),
+            (CacheMode::Memory, Via::TcpV2, EpClass::Cdns),
+            (CacheMode::DiskSameClient, Via::Https, EpClass::Bgdl),
+            (CacheMode::DiskSameClient, Via::HttpAfter503, EpClass::Versions),
+        ];
+        for round in 0..3 {
+            if pending.is_empty() {
+                break;
+            }
+            let handles: Vec<_> = pending
+                .iter()
+                .map(|&(mode, via, class)| {
+                    uniq += 1;
+                    let u = uniq;
+                    rt.spawn(async move { (mode, via, class, tokio::time::timeout(Duration::from_secs(60), run_sliding_scenario(mode, via, class, u)).await) })
+                })
+                .collect();
+            let mut again = Vec::new();
+            for h in handles {
+                match rt.block_on(h) {
+                    Ok((mode, via, class, Ok(Ok(obs)))) => {
+                        let complete = obs.steps.iter().all(|s| s.phase != "unjudged");
+                        if !complete && round < 2 {
+                            again.push((mode, via, class));
+                            ctx.obs("cache.history_repeated(too close to boundary)", 1);
+                            continue;
+                        }
+                        ctx.eval_nontrivial(mix64(fnv64(b"cache-sliding"), fnv64(format!("{mode:?}{via:?}{class:?}").as_bytes())));
+                        ctx.obs(&format!("cache.sliding_histories.{}", mode.name()), 1);
+                        judge_cache(&ctx, mode, via, class, &obs);
+                    }
+                    Ok((_, _, _, Ok(Err(e)))) => ctx.inconclusive(&format!("cache history: {e}")),
+                    Ok((_, _, _, Err(_))) => ctx.inconclusive("cache history: watchdog (60 s)"),
                     Err(_) => ctx.inconclusive("cache history task failed"),
                 }
             }
